@@ -1,6 +1,10 @@
 //! engine binary skeleton: see ../CONTRIBUTING.md
 use vmon::report::Report;
 
+mod c15;
+mod c20;
+mod sha1b64;
+
 pub struct Args {
     pub engine: String,
     pub seed: u64,
@@ -59,9 +63,37 @@ fn main() {
     vmon::panics::install();
     let args = parse_args();
     let t0 = std::time::Instant::now();
-    let _quick = args.tier != "thorough";
+    let quick = args.tier != "thorough";
+    let seed = args.seed;
+    let n = args.threads.max(1);
     let mut rep: Report = match args.engine.as_str() {
-        // "<engine-name>" => ...,
+        "c20-handshake" => {
+            if let Err(e) = sha1b64::self_test() {
+                // a wrong oracle must not produce verdicts
+                let mut r = Report::new("C20", "c20-handshake", c20::rule());
+                r.inconclusive(&format!("oracle-self-test-failed:{e}"));
+                r
+            } else {
+                // handshakes per shard (plus the concurrent herds)
+                let (cases, herd) = if quick { (1_000, 48) } else { (12_000, 160) };
+                let mut r = sharded(n, move |s| c20::run_shard(seed, s, quick, cases, herd));
+                r.extra.insert("shards".into(), serde_json::json!(n));
+                r.extra.insert("herd_size_per_shard".into(), serde_json::json!(herd));
+                r
+            }
+        }
+        "c15-scan" => {
+            if let Err(e) = c15::self_check() {
+                let mut r = Report::new("C15", "c15-scan", c15::rule());
+                r.inconclusive(&format!("model-self-check-failed:{e}"));
+                r
+            } else {
+                let ns = n as u64;
+                let mut r = sharded(n, move |s| c15::run_shard(seed, s, ns, quick));
+                r.count("pages_served_by_handlers", c15::pages_served());
+                r
+            }
+        }
         _ => usage(),
     };
     for p in vmon::panics::take_unexpected() {
